@@ -3,14 +3,17 @@
 Workload: 2-4 generated script files.  The main file ``pyscript/c18a.py`` (optionally plus
 the module ``pyscript/modules/c18mod.py`` it imports) holds a call chain of 1-5 frames -
 plain functions, a method of a small class, a user-written decorator wrapper, a closure,
-a self-recursive function, functions of the imported module - whose call sites are of
+a self-recursive function, the body of a class statement, functions of the imported module, and as the last
+frame optionally a natively compiled one (``@pyscript_compile`` function at file level or inside a function, a
+``lambda``) - whose call sites are of
 generated statement kinds (assign / return / augmented assign / comprehensions /
 multi-line calls / if, for, while, try, finally, except, else bodies and tests / f-string /
 keyword argument / ...), with filler statements before and after so line numbers vary.  The last
 frame holds ONE fault: a raising expression (ZeroDivisionError, NameError, TypeError,
 ValueError, KeyError, IndexError, AttributeError, OverflowError, UnicodeDecodeError) or a
 raise/assert statement (any builtin Exception class, user classes, ``raise .. from ..``,
-implicit context, ``from None``, bare and named re-raise, a cause raised in a deeper helper).
+implicit context, ``from None``, bare and named re-raise, a cause raised in a deeper helper, an exception that is
+its own cause, two exceptions that are each other's cause).
 The chain is entered from a generated entry point: @state_trigger / @event_trigger /
 @time_trigger function, @service function, @state_trigger expression, @state_active
 expression, @event_trigger filter expression, done-callback, task.create()d function,
@@ -52,7 +55,7 @@ PROPERTY = "C18"
 LEVEL = "exploration"
 RULE = (
     "seeded generation of (entry-point kind x call chain of 1-5 frames over function/method/decorator/"
-    "closure/recursion/imported-module frames x call-site statement kind x fault kind and statement "
+    "closure/recursion/class-body/natively-compiled/lambda/imported-module frames x call-site statement kind x fault kind and statement "
     "position x 1-3 occurrences interleaved with witness stimuli x decorator subsystem); half of the runs "
     "steer away from the program shapes of the findings made on the unchanged tree; distinct = scenario "
     "digest; non-trivial = the fault was reached at least once in the simulation and natively"
@@ -67,8 +70,20 @@ ASSUMPTIONS = [
     "string expressions the synthetic expression frame is don't-care; the function NAME of a module-level "
     "frame (CPython: '<module>') is don't-care, its file and line are compared",
     "BaseException-only kinds (SystemExit, KeyboardInterrupt, CancelledError, GeneratorExit) are not injected "
-    "(documented: exit() can crash HA); StopIteration is not injected (generators are documented as unsupported)",
-    "lambdas are documented to be compiled natively and are not part of the generated chains",
+    "(documented: exit() can crash HA)",
+    "StopIteration: all pyscript functions are documented to be async, and CPython itself turns a StopIteration "
+    "that leaves a coroutine into 'RuntimeError: coroutine raised StopIteration' with the StopIteration as direct "
+    "cause (PEP 479); exactly that wrapper is don't-care: a logged StopIteration section followed by that "
+    "RuntimeError section counts as one section whose script frames are those of both - the report (once, script's "
+    "logger, type and message of the StopIteration, frames) and containment are judged as for any other kind",
+    "lambdas and @pyscript_compile functions are documented to be compiled to native Python functions: they appear "
+    "only as the LAST frame of a chain (native code cannot call interpreted functions) and hold no pyscript "
+    "features; their frames are compared like any other script frame (CPython names a lambda frame '<lambda>')",
+    "a class statement inside a function cannot read the enclosing function's variables in pyscript (language "
+    "fidelity, not this property): a generated class body starts with its own 'x = 1' (the value x has everywhere) "
+    "so that the same source reaches the fault in both interpreters",
+    "exceptions whose __cause__ chain is cyclic: reference = CPython's traceback module, which prints each "
+    "exception of the chain once",
     "an exception left in a finished task counts as propagated into Home Assistant (asyncio reports it to the "
     "loop's exception handler when the task is destroyed)",
     "when a file fails because a module it imports fails at load time, one report on the importing file's "
@@ -78,7 +93,8 @@ ASSUMPTIONS = [
     "EVENT_HOMEASSISTANT_STARTED); @time_trigger entry points run without clock drift (extra period firings "
     "under drift are C06/C07's subject) and only a lower bound of their occurrences is required",
     "spec.steer (half of the runs): no decorator/recursion/same-named adjacent frames, no cause/context chains, "
-    "no import-time fault, no trigger-function entry in the new subsystem - the shapes of the findings on the "
+    "no import-time fault, no trigger-function entry in the new subsystem, no class-body / lambda / inner compiled "
+    "frames - the shapes of the findings on the "
     "unchanged tree - so that the remaining clauses keep being judged in runs no known finding taints",
 ]
 TIERS = {
@@ -94,6 +110,8 @@ REACH_PROBES = [
     "implicit_context", "multiline_fault_statement", "multiline_call_site", "depth5",
     "next_occurrence_served", "burst_occurrences", "reload_refails", "sibling_done_callback",
     "user_exception_class", "report_on_script_logger", "frames_equal_cpython",
+    "fault_in_class_body", "fault_in_compiled_function", "fault_in_inner_compiled_function", "fault_in_lambda",
+    "exception_is_its_own_cause", "cause_cycle", "stop_iteration", "stop_iteration_wrapper_folded",
 ]
 SHRINK_LISTS = [["ops"], ["spec", "levels"], ["spec", "others"], ["spec", "entry_frame", "pre"],
                 ["spec", "entry_frame", "post"], ["spec", "levels", "*", "pre"], ["spec", "levels", "*", "post"]]
@@ -119,9 +137,20 @@ ENTRY_CLASS = {
     "task_create": "created_task", "load": "load_time", "load_import": "load_time",
 }
 
-LEVEL_KINDS = ["func", "method", "deco", "closure", "recurse"]
-LEVEL_WEIGHTS = [10, 6, 5, 3, 2]
-LEVEL_COST = {"func": 1, "method": 1, "deco": 2, "closure": 2, "recurse": 2}
+LEVEL_KINDS = ["func", "method", "deco", "closure", "recurse", "classbody"]
+LEVEL_WEIGHTS = [10, 6, 5, 3, 2, 3]
+LEVEL_COST = {"func": 1, "method": 1, "deco": 2, "closure": 2, "recurse": 2, "classbody": 2}
+# natively compiled frames: only as the last frame of the chain (they hold the fault; native code cannot call
+# interpreted functions).  "compiled" = @pyscript_compile function, at file level or (level["inner"]) defined inside
+# an interpreted function; "lambda" = a lambda defined and called inside an interpreted function
+TERMINAL_KINDS = ("compiled", "lambda")
+LAMBDA_FORMS = [
+    ["lambda v: {E}"],
+    ["lambda v: (", "    {E})"],
+    ["lambda v: [{E} for _i in range(1)]"],
+    ["lambda v: {E} if v >= 0 else 0"],
+    ["lambda v, u=2: (u,", "                 {E})"],
+]
 
 # ---------------------------------------------------------------------------- statement shapes
 # {E} = the expression (call of the next frame, or the raising expression)
@@ -206,6 +235,7 @@ FAULT_EXPR = {
     "attr": "{x}.c18_no_attr",
     "overflow": "10.0 ** 400",
     "unicode": "b'\\xff'.decode('utf-8')",
+    "stopiter": "next(iter([]))",
 }
 # raising statements; {Exc} builtin class, {E0} an inner raising expression
 FAULT_STMT = {
@@ -220,6 +250,9 @@ FAULT_STMT = {
     "raise_from_caught": ["try:", "    r = {E0}", "except Exception as err:", "    raise C18Error('c18 outer') from err"],
     "raise_from_deep": ["try:", "    r = c18_thrower(x)", "except Exception as err:",
                         "    raise C18Error('c18 outer') from err"],
+    "raise_builtin_from_caught": ["try:", "    r = {E0}", "except Exception as err:",
+                                  "    raise {Exc}('c18 boom') from err"],
+    "raise_builtin_in_except": ["try:", "    r = {E0}", "except Exception:", "    raise {Exc}('c18 boom')"],
     "raise_in_except": ["try:", "    r = {E0}", "except Exception:", "    raise C18Error('c18 ctx')"],
     "raise_from_none": ["try:", "    r = {E0}", "except Exception:", "    raise C18Error('c18 none') from None"],
     "reraise_bare": ["try:", "    r = {E0}", "except Exception:", "    q = 1", "    raise"],
@@ -235,9 +268,21 @@ FAULT_STMT = {
     "del_item": ["r = {}", "del r['c18k']"],
     "store_index": ["r = []", "r[x + 3] = 1"],
     "store_attr": ["r = 1", "r.c18_no_attr = 1"],
+    # cyclic __cause__ chains: an exception that is its own cause; two exceptions that are each other's cause
+    "raise_from_self": ["err = {Exc}('c18 boom')", "raise err from err"],
+    "raise_user_from_self": ["err = C18Error('c18 self')", "q = 1", "raise err from err"],
+    "raise_cause_cycle": ["ea = C18Error('c18 outer')", "eb = ValueError('c18 inner')", "try:", "    raise eb from ea",
+                          "except Exception:", "    raise ea from eb"],
 }
-CHAINED_FAULTS = {"raise_from_new", "raise_from_caught", "raise_from_deep"}
-CONTEXT_FAULTS = {"raise_in_except"}
+CHAINED_FAULTS = {"raise_from_new", "raise_from_caught", "raise_from_deep", "raise_cause_cycle",
+                  "raise_builtin_from_caught"}
+SELF_CAUSE_FAULTS = {"raise_from_self", "raise_user_from_self"}
+# natively compiled code cannot use what the interpreter defines (documented): neither the interpreted helper nor
+# the classes of the file (the interpreter keeps them in its own variable objects)
+NOT_NATIVE_FAULTS = {"raise_from_deep", "raise_user", "raise_user_sub", "raise_from_new", "raise_from_caught",
+                     "raise_in_except", "raise_from_none", "raise_user_from_self", "raise_cause_cycle"}
+NOT_NATIVE_SITES = {"try_unrelated", "except_body", "try_else"}
+CONTEXT_FAULTS = {"raise_in_except", "raise_builtin_in_except"}
 ML_FAULTS = {"raise_ml", "assert_ml", "aug_ml"}
 BUILTIN_EXCS = [
     "Exception", "RuntimeError", "ValueError", "KeyError", "IndexError", "LookupError", "ArithmeticError",
@@ -245,7 +290,7 @@ BUILTIN_EXCS = [
     "NameError", "UnboundLocalError", "NotImplementedError", "RecursionError", "OSError", "FileNotFoundError",
     "PermissionError", "TimeoutError", "ConnectionError", "BrokenPipeError", "EOFError", "ImportError",
     "ModuleNotFoundError", "MemoryError", "BufferError", "ReferenceError", "UnicodeError", "SyntaxError",
-    "IndentationError", "SystemError", "UserWarning", "DeprecationWarning",
+    "IndentationError", "SystemError", "UserWarning", "DeprecationWarning", "StopIteration", "StopAsyncIteration",
 ]
 FILLERS = [
     ["q0 = x + 1"],
@@ -264,20 +309,25 @@ def _gen_fill(rng: random.Random, hi: int = 3) -> list:
     return [rng.randrange(len(FILLERS)) for _ in range(rng.choice([0, 0, 1, 1, 2, hi]))]
 
 
-def _gen_fault(rng: random.Random, direct: bool, steer: bool) -> dict:
+def _gen_fault(rng: random.Random, direct: bool, steer: bool, terminal: str | None = None) -> dict:
     if direct:
         return {"kind": rng.choice(["zerodiv", "floordiv", "name", "type_add", "value", "key", "index", "attr",
                                     "overflow"]), "site": "expr", "exc": None, "inner": None}
-    if rng.random() < 0.45:
+    if terminal == "lambda" or rng.random() < 0.45:
         sites = sorted(SITES_EXPR)
         if steer:
             sites = [st for st in sites if st not in CONTEXT_SITES]
+        if terminal == "compiled":
+            sites = [st for st in sites if st not in NOT_NATIVE_SITES]
         return {"kind": rng.choice(sorted(FAULT_EXPR)), "site": rng.choice(sites), "exc": None, "inner": None}
     kinds = sorted(FAULT_STMT)
     sites = ["plain", "plain"] + sorted(SITES_STMT)
     if steer:
         kinds = [k for k in kinds if k not in CHAINED_FAULTS | CONTEXT_FAULTS | {"reraise_var"}]
         sites = [st for st in sites if st not in CONTEXT_SITES]
+    if terminal == "compiled":
+        kinds = [k for k in kinds if k not in NOT_NATIVE_FAULTS]
+        sites = [st for st in sites if st not in NOT_NATIVE_SITES]
     return {"kind": rng.choice(kinds), "site": rng.choice(sites), "exc": rng.choice(BUILTIN_EXCS),
             "inner": rng.choice(sorted(FAULT_EXPR))}
 
@@ -301,27 +351,42 @@ def gen(rng: random.Random, tier: str) -> dict:
     frames = 1
     in_mod = entry == "load_import"
     call_sites = [st for st in sorted(SITES_EXPR) if not (steer and st in CONTEXT_SITES)]
-    while frames < depth:
+    # the last frame may be a natively compiled one (steered runs: only the file-level @pyscript_compile function)
+    terminal = None
+    if not direct and rng.random() < 0.2:
+        terminal = rng.choice([{"kind": "compiled", "inner": False}] if steer else
+                              [{"kind": "compiled", "inner": False}, {"kind": "compiled", "inner": True},
+                               {"kind": "lambda", "inner": False}, {"kind": "lambda", "inner": True}])
+        terminal["cost"] = 2 if terminal["inner"] else 1
+        if frames + terminal["cost"] > depth:
+            terminal = None
+    while frames < depth - (terminal["cost"] if terminal else 0):
         if steer:
             kind = rng.choices(["func", "method", "closure"], [10, 6, 3])[0]
             if kind == "method" and levels and levels[-1]["kind"] == "method":
                 kind = "func"  # two adjacent frames called 'run'
         else:
             kind = rng.choices(LEVEL_KINDS, LEVEL_WEIGHTS)[0]
-        if frames + LEVEL_COST[kind] > depth:
+        if frames + LEVEL_COST[kind] > depth - (terminal["cost"] if terminal else 0):
             kind = "func"
         if not in_mod and rng.random() < 0.22:
             in_mod = True
         levels.append({"kind": kind, "mod": in_mod, "pre": _gen_fill(rng), "post": _gen_fill(rng, 2),
                        "site": rng.choice(call_sites)})
         frames += LEVEL_COST[kind]
+    if terminal:
+        if not in_mod and rng.random() < 0.22:
+            in_mod = True
+        levels.append({"kind": terminal["kind"], "inner": terminal["inner"], "mod": in_mod, "pre": _gen_fill(rng),
+                       "post": _gen_fill(rng, 2), "site": rng.choice(call_sites),
+                       "lam_form": rng.randrange(len(LAMBDA_FORMS))})
     spec = {
         "entry": entry,
         "direct": direct,
         "steer": steer,
         "entry_frame": {"pre": _gen_fill(rng), "post": _gen_fill(rng, 2), "site": rng.choice(call_sites)},
         "levels": levels,
-        "fault": _gen_fault(rng, direct, steer),
+        "fault": _gen_fault(rng, direct, steer, terminal["kind"] if terminal else None),
         "import": rng.choice(["import", "from"]),
         "pad": rng.randrange(0, 6),
         "order": rng.randrange(1 << 16),
@@ -375,14 +440,22 @@ def _fill_lines(codes: list) -> list:
     return out
 
 
-def _apply_expr_site(site: str, expr: str, toplevel: bool) -> list:
+# in a class body inside a function pyscript does not resolve the file's own classes in an except clause (language
+# fidelity, not this property): the shape that relies on catching one is not rendered there
+SITES_CLASSBODY_BAD = {"return", "except_body"}
+
+
+def _apply_expr_site(site: str, expr: str, toplevel) -> list:
+    """``toplevel``: False (function body), True (file level) or "class" (class body)."""
     if site not in SITES_EXPR or (toplevel and site in SITES_EXPR_TOPLEVEL_BAD):
+        site = "assign"
+    if toplevel == "class" and site in SITES_CLASSBODY_BAD:
         site = "assign"
     return [line.replace("{E}", expr) for line in SITES_EXPR[site]]
 
 
-def _apply_stmt_site(site: str, stmt: list) -> list:
-    if site not in SITES_STMT:
+def _apply_stmt_site(site: str, stmt: list, toplevel=False) -> list:
+    if site not in SITES_STMT or (toplevel == "class" and site in SITES_CLASSBODY_BAD):
         site = "plain"
     out = []
     for line in SITES_STMT[site]:
@@ -403,7 +476,7 @@ def _fault_lines(fault: dict, toplevel: bool, xvar: str = "x") -> list:
     if kind == "raise_noargs" and exc_name in ("SyntaxError", "IndentationError"):
         exc_name = "RuntimeError"  # str(SyntaxError()) is 'None': no message to look for
     stmt = [s.replace("{Exc}", exc_name).replace("{E0}", inner) for s in FAULT_STMT[kind]]
-    return _apply_stmt_site(fault["site"], stmt)
+    return _apply_stmt_site(fault["site"], stmt, toplevel)
 
 
 def _direct_expr(spec: dict) -> str:
@@ -426,10 +499,47 @@ def _indent(lines: list, n: int) -> list:
     return [(pad + ln) if ln else ln for ln in lines]
 
 
-def _level_def(level: dict, idx: int, action: list) -> list:
+def _eff_kind(spec: dict, idx: int) -> str:
+    """Kind a level is rendered as: natively compiled kinds only where they are possible."""
+    kind = spec["levels"][idx]["kind"]
+    if kind in TERMINAL_KINDS:
+        fkind = spec["fault"]["kind"]
+        if idx != len(spec["levels"]) - 1:
+            return "func"
+        if kind == "lambda" and fkind not in FAULT_EXPR:
+            return "func"
+        if kind == "compiled" and (fkind in NOT_NATIVE_FAULTS or spec["fault"]["site"] in NOT_NATIVE_SITES):
+            return "func"
+    return kind
+
+
+def _lambda_lines(level: dict, target: str, expr: str) -> list:
+    form = LAMBDA_FORMS[level.get("lam_form", 0) % len(LAMBDA_FORMS)]
+    lines = [line.replace("{E}", expr) for line in form]
+    return [f"{target} = {lines[0]}"] + lines[1:]
+
+
+def _level_def(level: dict, idx: int, action: list, kind: str | None = None, lam_expr: str = "v") -> list:
     """Source of one chain level; ``action`` = lines of the call of the next frame / of the fault."""
     body = _fill_lines(level["pre"]) + action + _fill_lines(level["post"]) + ["return x"]
-    kind = level["kind"]
+    kind = kind or level["kind"]
+    if kind == "classbody":
+        # the statements run in the body of a class statement (CPython: a frame named after the class)
+        return ([f"def c18_f{idx}(x):", "    w = 4", f"    class C18B{idx}:", "        x = 1"] + _indent(body[:-1], 8)
+                + ["        def c18_m(self):", "            pass", "    return x"])
+    if kind == "compiled" and not level.get("inner"):
+        return ["@pyscript_compile", f"def c18_f{idx}(x):"] + _indent(body, 4)
+    if kind == "compiled":
+        call = _apply_expr_site(level["site"], f"c18_nat{idx}(x)", False)
+        return ([f"def c18_f{idx}(x):", "    w = 5", "    @pyscript_compile", f"    def c18_nat{idx}(x):"]
+                + _indent(body, 8) + _indent(call, 4) + ["    return x"])
+    if kind == "lambda" and not level.get("inner"):
+        return _lambda_lines(level, f"c18_f{idx}", lam_expr)
+    if kind == "lambda":
+        call = _apply_expr_site(level["site"], f"c18_lam{idx}(x)", False)
+        return ([f"def c18_f{idx}(x):"] + _indent(_fill_lines(level["pre"]), 4)
+                + _indent(_lambda_lines(level, f"c18_lam{idx}", lam_expr), 4) + _indent(call, 4)
+                + _indent(_fill_lines(level["post"]), 4) + ["    return x"])
     if kind == "method":
         return ([f"class C18K{idx}:", "    def __init__(self, b):", "        self.b = b", "",
                  "    def run(self, x):"] + _indent(body, 8))
@@ -497,8 +607,10 @@ def render(scn: dict) -> dict:
 
     main_defs: list[list] = []
     mod_defs: list[list] = []
+    lam_expr = FAULT_EXPR[fault["kind"]].replace("{x}", "v") if fault["kind"] in FAULT_EXPR else "v"
     for idx, lvl in enumerate(levels):
-        src = _level_def(lvl, idx, action_for(idx, lvl["mod"], False)) + [""]
+        kind = _eff_kind(spec, idx)
+        src = _level_def(lvl, idx, action_for(idx, lvl["mod"], "class" if kind == "classbody" else False), kind, lam_expr) + [""]
         (mod_defs if lvl["mod"] else main_defs).append(src)
     order_rng = random.Random(spec.get("order", 0))
     order_rng.shuffle(main_defs)
@@ -617,6 +729,8 @@ def normalize(scn: dict) -> dict | None:
         spec["direct"] = False
     if spec.get("direct") and spec["fault"]["kind"] not in FAULT_EXPR:
         return None
+    for idx, lvl in enumerate(spec["levels"]):
+        lvl["kind"] = _eff_kind(spec, idx)
     ops = []
     for op in scn["ops"]:
         if op["kind"] == "wit" and op["w"] >= len(spec["others"]):
@@ -638,6 +752,14 @@ def simplify(scn: dict):
         if lvl["site"] != "assign":
             cand = copy.deepcopy(scn)
             cand["spec"]["levels"][i]["site"] = "assign"
+            yield cand
+        if lvl.get("lam_form"):
+            cand = copy.deepcopy(scn)
+            cand["spec"]["levels"][i]["lam_form"] = 0
+            yield cand
+        if lvl.get("inner"):
+            cand = copy.deepcopy(scn)
+            cand["spec"]["levels"][i]["inner"] = False
             yield cand
         if lvl["mod"] and (i == 0 or not spec["levels"][i - 1]["mod"]) and spec["entry"] != "load_import":
             cand = copy.deepcopy(scn)
@@ -713,17 +835,21 @@ def _noop_decorator_factory(*_a, **_k):
 def _chain_sections(exc: BaseException, names: set[str]) -> list[dict]:
     """Exceptions of a cause/context chain, earliest first, the way ``traceback`` prints them."""
     out = []
-    seen = set()
+    seen = set()  # identities within this call only; never reaches the trace
     cur: BaseException | None = exc
     link = "main"
-    while cur is not None and id(cur) not in seen:
+    while cur is not None:
         seen.add(id(cur))
         frames = [(os.path.basename(f.filename), f.name, f.lineno)
                   for f in traceback.extract_tb(cur.__traceback__) if f.filename in names]
         out.append({"type": type(cur).__name__, "msg": str(cur), "frames": frames, "link": link})
-        if cur.__cause__ is not None:
-            cur, link = cur.__cause__, "cause"
-        elif cur.__context__ is not None and not cur.__suppress_context__:
+        # traceback.TracebackException: a cause / context that was already printed is not printed again; the
+        # context is considered only when no cause is printed and it is not suppressed
+        cause = cur.__cause__ if cur.__cause__ is not None and id(cur.__cause__) not in seen else None
+        if cause is not None:
+            cur, link = cause, "cause"
+        elif (cur.__context__ is not None and not cur.__suppress_context__
+              and id(cur.__context__) not in seen):
             cur, link = cur.__context__, "context"
         else:
             cur = None
@@ -741,7 +867,7 @@ def native_reference(files: dict, spec: dict) -> list[dict]:
         glob = {
             "__name__": name,
             "sim": _Stub(), "task": _Stub(), "log": _Stub(), "pyscript": _Stub(), "state": _Stub(),
-            "service": lambda fn: fn,
+            "service": lambda fn: fn, "pyscript_compile": lambda fn: fn,
         }
         for dec in ("state_trigger", "event_trigger", "time_trigger", "state_active", "time_active",
                     "mqtt_trigger", "webhook_trigger", "task_unique"):
@@ -836,6 +962,28 @@ def parse_record(msg: str, wdir: str) -> list[dict]:
     return out
 
 
+_STOPITER_WRAP = "RuntimeError: coroutine raised StopIteration"
+_STOPITER_HEAD = re.compile(r"^StopIteration(: .*)?$", re.M)
+
+
+def fold_stop_iteration(secs: list[dict]) -> tuple[list[dict], int]:
+    """A StopIteration section that is the direct cause of 'RuntimeError: coroutine raised StopIteration' is what
+    CPython makes of a StopIteration leaving a coroutine (all pyscript functions are coroutines): the pair counts
+    as one section of the StopIteration with the script frames of both (outer frames first)."""
+    out: list[dict] = []
+    folded = 0
+    for sec in secs:
+        prev = out[-1] if out else None
+        if (prev is not None and prev["link"] == "cause" and _STOPITER_WRAP in sec["text"]
+                and _STOPITER_HEAD.search(prev["text"]) and not prev.get("folded")):
+            out[-1] = {"frames": list(sec["frames"]) + list(prev["frames"]), "text": prev["text"],
+                       "link": sec["link"], "folded": True}
+            folded += 1
+        else:
+            out.append(sec)
+    return out, folded
+
+
 def _sig_text(sec: dict) -> str:
     return f"{sec['type']}: {sec['msg']}" if sec["msg"] else sec["type"]
 
@@ -870,15 +1018,23 @@ def _role(frame: tuple, spec: dict) -> str:
         return "thrower"
     if name == "run":
         return "method"
-    m = re.match(r"c18_(wrap|in|f)(\d+)$", name)
+    if name == "<lambda>":
+        return "lambda"
+    if re.match(r"C18B\d+$", name):
+        return "class_body"
+    m = re.match(r"c18_(wrap|in|f|nat)(\d+)$", name)
     if m:
         idx = int(m.group(2))
-        kind = spec["levels"][idx]["kind"] if idx < len(spec["levels"]) else "func"
+        kind = _eff_kind(spec, idx) if idx < len(spec["levels"]) else "func"
         if m.group(1) == "wrap":
             return "decorator_wrapper"
         if m.group(1) == "in":
             return "closure_inner"
-        return {"deco": "decorated_function", "closure": "closure_outer", "recurse": "recursive_function"}.get(kind, "function")
+        if m.group(1) == "nat":
+            return "inner_compiled_function"
+        return {"deco": "decorated_function", "closure": "closure_outer", "recurse": "recursive_function",
+                "classbody": "class_body_outer", "compiled": "compiled_function",
+                "lambda": "lambda_outer"}.get(kind, "function")
     return "other"
 
 
@@ -917,6 +1073,46 @@ def _merge_same_name(nat: list, spec: dict) -> list:
         else:
             out.append(fr)
     return out
+
+
+_CTX_FILE = "<name or file of the running evaluation context>"
+_ANY_NAME = "<any name>"
+
+
+def _alt_class_body(nat: list, spec: dict) -> list:
+    """Explanatory alternative: the statements of a class body are attributed to the frame that executes the class
+    statement (no frame named after the class)."""
+    out: list = []
+    for fr in nat:
+        if out and _role(fr, spec) == "class_body":
+            out[-1] = (out[-1][0], out[-1][1], fr[2])
+        else:
+            out.append(fr)
+    return out
+
+
+def _alt_lambda_name(nat: list, spec: dict) -> list:
+    """Explanatory alternative: the frame of a lambda carries some other name than '<lambda>'."""
+    return [(fr[0], _ANY_NAME, fr[2]) if fr[1] == "<lambda>" else fr for fr in nat]
+
+
+def _alt_native_file(nat: list, spec: dict) -> list:
+    """Explanatory alternative: a natively compiled function defined while a function runs carries the name (or
+    file) of the evaluation context that runs it instead of the path of the file it is written in."""
+    out = []
+    for fr in nat:
+        role = _role(fr, spec)
+        inner_lambda = role == "lambda" and any(_eff_kind(spec, i) == "lambda" and lvl.get("inner")
+                                               for i, lvl in enumerate(spec["levels"]))
+        out.append((_CTX_FILE, fr[1], fr[2]) if role == "inner_compiled_function" or inner_lambda else fr)
+    return out
+
+
+_ALTERNATIVES = [
+    ("class_body_attributed_to_enclosing_frame", _alt_class_body),
+    ("inner_native_function_file_taken_from_running_context", _alt_native_file),  # (looks at frame names: before the next)
+    ("lambda_frame_not_named_lambda", _alt_lambda_name),
+]
 
 
 def compare_frames(nat: list, pys: list, spec: dict, section: str) -> dict | None:
@@ -968,27 +1164,50 @@ def compare_frames(nat: list, pys: list, spec: dict, section: str) -> dict | Non
                 return False
             first = relax_first and i == 0
             modlevel = a[1] == "<module>"
-            if not (a[1] == b[1] or modlevel or first):
+            if not (a[1] == b[1] or a[1] == _ANY_NAME or modlevel or first):
                 return False
-            if not (a[0] == b[0] or first or (relax_modfile and modlevel)):
+            # (the running evaluation context: a trigger/task context has a name only, a file-level one the file
+            # of the first frame)
+            file_ok = a[0] == b[0] or (a[0] == _CTX_FILE and (not b[0].endswith(".py") or b[0] == pys[0][0]))
+            if not (file_ok or first or (relax_modfile and modlevel)):
                 return False
         return True
 
+    # candidate explanations, smallest first: subsets of the alternatives above (applied in that order), then the
+    # merge of same-named adjacent frames, each under the relaxations of the comparison
+    subsets: list = [[]]
+    for item in _ALTERNATIVES:
+        subsets += [sub + [item] for sub in subsets]
+    subsets.sort(key=len)  # stable: order of _ALTERNATIVES within a size
     labels = []
     first_file_wrong = False
-    for use_merged in (False, True):
-        ref = merged if use_merged else nat
-        if use_merged and merged == nat:
+    for subset in subsets:
+        base = nat
+        applicable = True
+        for _label, fn in subset:
+            changed = fn(base, spec)
+            if changed == base:
+                applicable = False
+                break
+            base = changed
+        if not applicable:
             continue
-        for relax_first, relax_modfile in ((False, False), (section != "main", False), (False, True)):
-            if eq(ref, relax_first, relax_modfile):
-                if use_merged:
-                    labels.append("adjacent_same_name_frames_merged")
-                if relax_first:
-                    labels.append("chained_section_first_frame_named_by_context")
-                    first_file_wrong = bool(ref) and ref[0][0] != pys[0][0]
-                if relax_modfile:
-                    labels.append("module_level_frame_attributed_to_importing_file")
+        for use_merged in (False, True):
+            ref = _merge_same_name(base, spec) if use_merged else base
+            if use_merged and ref == base:
+                continue
+            for relax_first, relax_modfile in ((False, False), (section != "main", False), (False, True)):
+                if eq(ref, relax_first, relax_modfile):
+                    labels.extend(label for label, _fn in subset)
+                    if use_merged:
+                        labels.append("adjacent_same_name_frames_merged")
+                    if relax_first:
+                        labels.append("chained_section_first_frame_named_by_context")
+                        first_file_wrong = bool(ref) and ref[0][0] != pys[0][0]
+                    if relax_modfile:
+                        labels.append("module_level_frame_attributed_to_importing_file")
+                    break
+            if labels:
                 break
         if labels:
             break
@@ -1143,8 +1362,9 @@ def oracle(w: World, scn: dict, files: dict, native: list, obs: dict):
     for rec in obs["setup_errors"] or []:
         if is_load and (_is_report(rec, main_sec) or rec["msg"].startswith("Failed to load")
                         or rec["msg"].startswith("module_import: failed to load module")
-                        or rec["msg"].startswith("Source code is unavailable for")):
-            continue
+                        or rec["msg"].startswith("Source code is unavailable for")
+                        or rec["msg"].startswith("Error while formatting ast exception")):
+            continue  # (the last one: pyscript's own failure to format the report - judged as not_logged below)
         raise HarnessError(f"unexpected ERROR during set-up: {rec['logger']}: {rec['msg'][:400]}")
     expected_ctx = {f"file.c18o{i}" for i in range(len(spec["others"]))}
     uses_mod = MOD_REL in files
@@ -1195,7 +1415,14 @@ def oracle(w: World, scn: dict, files: dict, native: list, obs: dict):
             w.probe("report_on_script_logger")
     t_last = (pre[-1]["t"] if pre else 0.0)
     if len(script_reports) < n_pre:
-        viol("C18.not_logged", dict(base_sig, entry_class=ENTRY_CLASS[entry]),
+        # explanatory label: what pyscript logged instead (its own failure while formatting the report)
+        why = "unexplained"
+        for rec in w.logs:
+            if (rec["level"] == "ERROR" and _logger_kind(rec["logger"])[0] == "other"
+                    and rec["msg"].startswith("Error while formatting ast exception")):
+                why = "formatter_raised_" + str(rec.get("exc") or "?").split(":", 1)[0]
+                break
+        viol("C18.not_logged", dict(base_sig, entry_class=ENTRY_CLASS[entry], why=why),
              f"{n_pre} occurrences of {_sig_text(main_sec)} but {len(script_reports)} ERROR records carry it; "
              f"other ERROR records: {[(r['logger'], r['msg'][:120]) for r in w.logs if r['level'] == 'ERROR' and r not in reports][:4]}",
              t_last)
@@ -1209,7 +1436,11 @@ def oracle(w: World, scn: dict, files: dict, native: list, obs: dict):
     n_equal = 0
     for rec in script_reports:
         t_rel = rec["vt"] - w.clock.vt0
-        secs = parse_record(rec["msg"], wdir)
+        secs, n_folded = parse_record(rec["msg"], wdir), 0
+        if any(sec["type"] == "StopIteration" for sec in native):
+            secs, n_folded = fold_stop_iteration(secs)
+        if n_folded:
+            w.probe("stop_iteration_wrapper_folded")
         problems = []
         if len(secs) != len(native):
             problems.append(("main", {"diff": "chain_length", "via": "n/a", "why": "unexplained"},
@@ -1336,6 +1567,18 @@ def oracle(w: World, scn: dict, files: dict, native: list, obs: dict):
             w.probe("fault_through_closure")
         if "recurse" in kinds:
             w.probe("fault_through_recursion")
+        if "classbody" in kinds:
+            w.probe("fault_in_class_body")
+        if levels and _eff_kind(spec, len(levels) - 1) == "compiled":
+            w.probe("fault_in_inner_compiled_function" if levels[-1].get("inner") else "fault_in_compiled_function")
+        if levels and _eff_kind(spec, len(levels) - 1) == "lambda":
+            w.probe("fault_in_lambda")
+        if fault["kind"] in SELF_CAUSE_FAULTS:
+            w.probe("exception_is_its_own_cause")
+        if fault["kind"] == "raise_cause_cycle":
+            w.probe("cause_cycle")
+        if any(sec["type"] == "StopIteration" for sec in native):
+            w.probe("stop_iteration")
         if len(native) > 1 and any(sec["link"] == "cause" for sec in native):
             w.probe("chained_cause")
         if len(native) > 1 and any(sec["link"] == "context" for sec in native):
